@@ -12,7 +12,7 @@ use tokio::sync::broadcast;
 use tokio::sync::mpsc::{self, UnboundedReceiver, UnboundedSender};
 
 use std::collections::HashSet;
-use std::sync::{Arc, RwLock};
+use std::sync::{Arc, Mutex, RwLock};
 
 use scru128::Scru128Id;
 
@@ -176,6 +176,9 @@ pub struct Store {
     contexts: Arc<RwLock<HashSet<Scru128Id>>>,
     broadcast_tx: broadcast::Sender<Frame>,
     gc_tx: UnboundedSender<GCTask>,
+    // Serialises id assignment, commit and broadcast of appends: frames become visible, and
+    // are broadcast, in id order even with concurrent writers.
+    append_lock: Arc<Mutex<()>>,
 }
 
 impl Store {
@@ -214,6 +217,7 @@ impl Store {
             contexts: Arc::new(RwLock::new(contexts)),
             broadcast_tx,
             gc_tx,
+            append_lock: Arc::new(Mutex::new(())),
         };
 
         // Load context registrations
@@ -525,6 +529,7 @@ impl Store {
     }
 
     pub fn append(&self, mut frame: Frame) -> Result<Frame, crate::error::Error> {
+        let _append_guard = self.append_lock.lock().unwrap();
         frame.id = scru128::new();
         #[cfg(feature = "verif")]
         crate::verif::sync_point("append.after_id", Some(frame.id));
